@@ -575,8 +575,25 @@ func oracleC14(x *Exec, r *StepRec) {
 		if !b.Available {
 			continue
 		}
-		if bi := x.tr.Binds[bk]; bi != nil && bi.GenesisBelowMin {
-			continue
+		touched := r.Kind == "msg" && (r.Msg.T == "bind" || r.Msg.T == "update" || r.Msg.T == "enable") && bk == bkey(r.Msg.Svc, resolveAddr(r.Msg.Prov))
+		if bi := x.tr.Binds[bk]; bi != nil && !touched {
+			if bi.GenesisBelowMin {
+				continue
+			}
+			if bi.BelowSinceParamChange {
+				// governance raised the minimum above this binding's deposit; nothing the module did. A successful
+				// bind/update/enable of it must still leave it compliant (touched), and a slash must disable it.
+				if r.Kind == "params" || !(r.Kind == "end" || (r.Kind == "msg" && r.Msg.T == "respond")) {
+					x.stats.inc("probe_below_minimum_after_param_raise")
+					continue
+				}
+				if ob, ok := r.Pre.Bindings[bk]; ok && coinsStake(ob.Deposit) == coinsStake(b.Deposit) {
+					continue // not slashed in this step
+				}
+			}
+		}
+		if r.Kind == "params" {
+			continue // a parameter change alone is not an operation of the module
 		}
 		hp, err := ParseHPricing(b.Pricing)
 		if err != nil {
